@@ -14,8 +14,10 @@ from harness.runner import run_property
 
 PROP = "C09"
 THEOREMS = ["Lbfgsb.C09.active_fixed", "Lbfgsb.C09.xbar_in_box", "Lbfgsb.C09.none_free", "Lbfgsb.C09.alpha_star_feasible",
-            "Lbfgsb.C09.smw_direction"]
-MODULES = ["LbfgsbVerif.Props.C09"]
+            "Lbfgsb.C09.smw_direction", "Lbfgsb.C09.masked_newton_condition", "Lbfgsb.C09.subspace_no_increase",
+            "Lbfgsb.C09.descent_of_decrease", "Lbfgsb.C09.direction_descent", "Lbfgsb.C09.newton_of_reduced", "Lbfgsb.C09.reduced_bmat",
+            "Lbfgsb.C09.code_direction_descent"]
+MODULES = ["LbfgsbVerif.Props.C09", "LbfgsbVerif.Props.C09Model"]
 
 
 def dense_from_pairs(S: np.ndarray, Y: np.ndarray) -> np.ndarray:
